@@ -520,6 +520,17 @@ class AbsoluteDuration(Duration):
         self._months = abs(months)
         self._years = abs(years)
 
+        self._signature = {  # type: ignore[attr-defined]
+            "years": self._years,
+            "months": self._months,
+            "weeks": self._weeks,
+            "days": self._remaining_days,
+            "hours": 0,
+            "minutes": 0,
+            "seconds": self._seconds,
+            "microseconds": self._microseconds,
+        }
+
         return self
 
     def total_seconds(self) -> float:
